@@ -1,9 +1,10 @@
 #!/bin/bash
-# usage: tools/try_all.sh [scale] [filter]  - runs every seeded mutant through the check of the property it breaks
-scale=${1:-0.5}; filter=${2:-}
+# usage: tools/try_all.sh [scale] [filter] [slot] - runs every seeded change through the check of the property it breaks
+scale=${1:-0.5}; filter=${2:-}; slot=${3:-0}
+V=${VERIF_DIR:-/verif}
 for d in /verif/seeded/*${filter}*/; do
   id=$(basename $d); prop=$(python3 -c "import json;print(json.load(open('$d/meta.json'))['breaks_property'])")
-  out=$(${VERIF_DIR:-/verif}/tools/try_mutant.sh $d/patch.diff $prop $scale 2>&1); rc=$?
+  out=$($V/tools/try_mutant.sh $d/patch.diff $prop $scale $slot 2>&1); rc=$?
   rules=$(echo "$out" | grep -o "rule=[A-Za-z0-9]*" | sort | uniq -c | tr '\n' ' ')
   harness=$(echo "$out" | grep -c HARNESS)
   echo "$id $prop rc=$rc harness_lines=$harness $rules"
